@@ -279,7 +279,9 @@ def main():
     CAPBAD = [("unknown-meta", lambda v: "#nope", R), ("category-not-tag", lambda v: v + ":three", ["TypeError"]),
               ("category-not-tag-cls", lambda v: v + ":cls", ["TypeError"]),
               ("unknown-variable", lambda v: "nothere", R), ("tag-on-untagged", lambda v: v + ":T", R),
-              ("generic-tag-nowhere", lambda v: "$z:@T", R)]
+              ("generic-tag-nowhere", lambda v: "$z:@T", R),
+              # any identifier names a tag, also one that looks like a special attribute
+              ("dunder-tag-on-untagged", lambda v: v + ":@__T__", R), ("generic-dunder-tag-nowhere", lambda v: "$z:@__zz__", R)]
     for pos, tmpl, v in CAPPOS:
         SEL.append((f"ok@{pos}", tmpl.format(v), "accept", False, R))
         for bad, mk, allowed in CAPBAD:
@@ -307,6 +309,26 @@ def main():
             ("immediate:second-focus-alone", "fa(!!y)", "refuse", False, ["ValueError", "SelectorError"]),
             ("total:ok", "fa(x, y)", "accept", False, R)]
 
+    # the same refusals when every function of the path was tooled beforehand (@tooled): nothing has to be installed at activation,
+    # the selector is verified all the same
+    import re
+    from ptera import tooled
+
+    @tooled
+    def ft(x):
+        y = x + 1
+        return y
+
+    @tooled
+    def gt(u):
+        w = ft(u) + 1
+        return w
+    env["ft"], env["gt"] = ft, gt
+    for what, text, expect, ovr, allowed in list(SEL):
+        if what in EXTRA or not re.search(r"\b(fa|ga)\b", text):
+            continue
+        SEL.append(("tooled:" + what, re.sub(r"\bga\b", "gt", re.sub(r"\bfa\b", "ft", text)), expect, ovr, allowed))
+
     def attempt(text, ovr, what=""):
         _in_scope = (fa, ga)          # the calling scope knows both functions: an empty env must still resolve nothing
         try:
@@ -319,6 +341,7 @@ def main():
                 p = probing(text, env=kw["env"], overridable=ovr)
             with p:
                 ga(1)
+                gt(1)
             return "ok"
         except BaseException as ex:
             return type(ex).__name__
